@@ -8,6 +8,7 @@ import (
 	"fmt"
 	"math/rand"
 	"sort"
+	"strings"
 
 	"pegsim/model"
 	"pegsim/sim"
@@ -249,6 +250,9 @@ func (c *metaCheck) Run(env *Env, sc *Scenario) (*Violation, error) {
 			k := "dup"
 			if t.Mut == nil && t.DupOf == nil {
 				k = "forged-foreign-input"
+				if t.Tag != "" {
+					k = t.Tag
+				}
 			}
 			if t.Mut != nil {
 				k = fmt.Sprintf("mut:%s:%d:%d", t.Mut.Kind, t.Mut.Ext, t.Mut.Bit)
@@ -322,6 +326,9 @@ func kindOf(t world.TxSpec) string {
 	if t.DupOf != nil {
 		return "duplicate"
 	}
+	if t.Tag == "expired-salt" || t.Tag == "key-type-not-active-yet" {
+		return strings.ReplaceAll(t.Tag, "-", "_")
+	}
 	return "forged_foreign_input"
 }
 
@@ -348,7 +355,7 @@ func validTargets(spec *world.Spec) []world.Ref {
 func init() {
 	// ------------------------------------------------------------ C05
 	Register(&metaCheck{id: "C05", level: "fault_enumeration",
-		rule: "for selected valid signed entries (RCD-1 and RCD-e, transfers, held conversions, multi-transaction batches, every fate) the adversary writes tampered copies into the same, the next and later blocks: every single-bit flip of the content and of each external id (thorough: exhaustive for the selected entries, quick: a seeded sample), swapped / dropped / duplicated / extra signatures, missing salt, signature made for another chain, content naming the victim but signed by another key; the world is synced with and without the copies and must be identical; distinct = distinct (mutation kind, external id, bit) per target",
+		rule: "for selected valid signed entries (RCD-1 and RCD-e, transfers, held conversions, multi-transaction batches, every fate) the adversary writes tampered copies into the same, the next and later blocks: every single-bit flip of the content and of each external id (thorough: exhaustive for the selected entries, quick: a seeded sample), swapped / dropped / duplicated / extra signatures, missing salt, signature made for another chain, content naming the victim but signed by another key; plus owner-signed entries with a salt outside the +-12 h window and RCD-e signed spends of a funded address at the last heights before that key type is accepted; the world is synced with and without the copies and must be identical; distinct = distinct (mutation kind, external id, bit) per target",
 		gen: func(seed uint64, tier string) (*Scenario, error) {
 			rng := rand.New(rand.NewSource(int64(seed)))
 			p := baseProfile(rng)
@@ -436,6 +443,36 @@ func init() {
 					}
 					spec.Blocks[tb].Tx = append(spec.Blocks[tb].Tx, cp)
 					plan.Added = append(plan.Added, world.Ref{B: tb, I: len(spec.Blocks[tb].Tx) - 1})
+				}
+			}
+			// owner-signed entries that must still have no effect: a salt outside
+			// the +-12 h window, and a key type (RCD-e) that is not active yet at
+			// the height of the entry (the address was funded on the honest chain)
+			for k := 0; k < 2 && len(targets) > 0; k++ {
+				tr := targets[rng.Intn(len(targets))]
+				cp := spec.Blocks[tr.B].Tx[tr.I]
+				cp.Nonce = 7100000 + len(plan.Added)
+				cp.Minute = 10
+				cp.Salt = int64(12*3600 + 1 + rng.Intn(7200))
+				if k == 1 {
+					cp.Salt = -int64(12*3600 + 600 + rng.Intn(7200))
+				}
+				cp.Tag = "expired-salt"
+				spec.Blocks[tr.B].Tx = append(spec.Blocks[tr.B].Tx, cp)
+				plan.Added = append(plan.Added, world.Ref{B: tr.B, I: len(spec.Blocks[tr.B].Tx) - 1})
+			}
+			if a := spec.Config.Act["RCDE"]; a >= spec.First+4 && a <= spec.First+uint32(len(spec.Blocks))-1 {
+				ai := int(a - spec.First) // block index of the last height at which RCD-e is not accepted
+				for m := 0; m < 3; m++ {  // miners hold PEG from the first rewards on
+					fund := txFrom(m, 7200000+m, xfer(1, 3000, world.AddrEthBase-m))
+					fb := 2 + rng.Intn(ai-3)
+					spec.Blocks[fb].Tx = append(spec.Blocks[fb].Tx, fund)
+					for _, bi := range []int{ai, ai - 1} {
+						early := txFrom(world.AddrEthBase-m, 7300000+len(plan.Added), xfer(1, 1000, 9))
+						early.Tag = "key-type-not-active-yet"
+						spec.Blocks[bi].Tx = append(spec.Blocks[bi].Tx, early)
+						plan.Added = append(plan.Added, world.Ref{B: bi, I: len(spec.Blocks[bi].Tx) - 1})
+					}
 				}
 			}
 			pb, _ := json.Marshal(plan)
